@@ -8,7 +8,7 @@ import (
 // Shape is one point of the signature space (C08).
 type Shape struct {
 	Arg, Recv, Reverse, SrcPtr, DstPtr, Err, Named, SrcImp, DstImp bool
-	NExtras                                                         int
+	NExtras                                                        int
 }
 
 // Legal says whether the combination is documented as legal.
